@@ -166,8 +166,56 @@ theorem T_a64_install_exec (mode : Mode) (func fake jit : Nat) (ws saved : List 
   rw [run_bind_ok _ _ _ _ _ (T_a64_tramp mode jit fake _ (by omega))]
   rw [run_bind_ok _ _ _ _ _ he, run_pure]
   simp
+/-- The AArch64/Linux boolean installation `replace_function_return_boolean(func, v)` as translated, first hint
+    honoured with `jit`: the 12 entry bytes are read, the hinted 8-byte `mmap`, the stub `A64.boolStub v`
+    (`movz x0, #v; ret`) copied to `jit` and flushed (with the barrier), then the entry patched with
+    `A64.entryLinux func jit` and the guard built. -/
+theorem T_a64_install_bool_exec (mode : Mode) (func jit : Nat) (v : Bool) (ws saved : List Nat)
+    (log : List (String × List Val)) (tail : List Val)
+    (hf : func + 134217728 + 8192 < 9223372036854775808) (hj : jit < 9223372036854775808)
+    (hnear : Alloc.absDiff jit func < 134217728)
+    (hws : A64.entryLinux func jit = Res.ok ws) :
+    run (GenA64L.replace_function_return_boolean mode 2 func v)
+        { answers := Val.bs saved :: Val.n (4096 : Nat) :: Val.n jit :: Val.n 4096 :: Val.n 0 :: tail, log := log } =
+      (Res.ok (), { answers := tail, log := log ++
+        [("read_bytes", [Val.n func, Val.n 12]),
+         ("sysconf", [Val.n 30]),
+         ("mmap", [Val.n ((func - 134217728 : Nat) : Int), Val.n 8, Val.n allocProt, Val.n allocFlags, Val.n (-1), Val.n 0]),
+         ("copy_nonoverlapping", [Val.bs (A64.wordsToBytes (A64.boolStub v)), Val.n jit, Val.n 8]),
+         ("__clear_cache", [Val.n jit, Val.n ((jit + 8 : Nat) : Int)]), ("asm", []),
+         ("sysconf", [Val.n 30]),
+         ("mprotect", [Val.n ((Machine.protectSpan func 12).1 : Nat), Val.n ((Machine.protectSpan func 12).2 : Nat), Val.n 7]),
+         ("copy_nonoverlapping", [Val.bs (A64.wordsToBytes ws), Val.n func, Val.n 12]),
+         ("__clear_cache", [Val.n func, Val.n ((func + 12 : Nat) : Int)]), ("asm", []),
+         ("PatchGuard::new", [Val.n func, Val.bs saved, Val.n 12, Val.n jit, Val.n 8])] }) := by
+  have hs : search func 134217728 4096 8 [some jit] =
+      (AResult.ok jit, [AEvent.mmap (func - 134217728) 8 (some jit)]) := by
+    have c : func - 134217728 ≤ func + 134217728 := by omega
+    simp [search, loop, c, hnear]
+  have ha := T_a64_alloc mode func 8 4096 (by omega) [some jit] (by intro x hx; simp at hx; omega)
+    (log ++ [("read_bytes", [Val.n func, Val.n ((12 : Nat) : Int)])]) (Val.n 4096 :: Val.n 0 :: tail) (by rw [hs]; simp)
+  rw [hs] at ha
+  simp only [List.map_cons, List.map_nil, encAns, List.cons_append, List.nil_append, List.length_cons,
+    List.length_nil, Nat.zero_add, Nat.reduceAdd, mmapCount, List.drop_succ_cons, List.drop_zero, encEv] at ha
+  have ha2 : run (GenA64L.allocate_jit_memory mode 2 func 8)
+      { answers := Val.n ((4096 : Nat) : Int) :: Val.n (jit : Int) :: Val.n 4096 :: Val.n 0 :: tail, log := log ++ [("read_bytes", [Val.n func, Val.n ((12 : Nat) : Int)])] } =
+      (Res.ok jit, { answers := Val.n 4096 :: Val.n 0 :: tail, log := log ++ [("read_bytes", [Val.n func, Val.n ((12 : Nat) : Int)])] ++ [("sysconf", [Val.n 30])] ++ [("mmap", [Val.n ((func - 134217728 : Nat) : Int), Val.n ((8 : Nat) : Int), Val.n allocProt, Val.n allocFlags, Val.n (-1), Val.n 0])] }) := by
+    rw [GenA64L.allocate_jit_memory]; exact ha
+  have he := T_a64_entry mode func jit 8 saved
+    (log ++ [("read_bytes", [Val.n func, Val.n ((12 : Nat) : Int)])] ++ [("sysconf", [Val.n 30])] ++ [("mmap", [Val.n ((func - 134217728 : Nat) : Int), Val.n ((8 : Nat) : Int), Val.n allocProt, Val.n allocFlags, Val.n (-1), Val.n 0])] ++
+      [("copy_nonoverlapping", [Val.bs (A64.wordsToBytes (A64.boolStub v)), Val.n jit, Val.n 8]),
+       ("__clear_cache", [Val.n jit, Val.n ((jit + 8 : Nat) : Int)]), ("asm", [])]) tail (by omega) hj
+  rw [hws] at he
+  rw [GenA64L.replace_function_return_boolean]
+  rw [run_bind_ok _ _ _ _ _ (T_a64_read_bytes mode func 12 saved _ log)]
+  dsimp only
+  rw [run_bind_ok _ _ _ _ _ ha2]
+  rw [run_bind_ok _ _ _ _ _ (T_a64_boolStub mode jit v _ (by omega))]
+  rw [run_bind_ok _ _ _ _ _ he, run_pure]
+  simp
 end Inj.Tie
 #print axioms Inj.Tie.T_a64_alloc_loop
 #print axioms Inj.Tie.T_a64_alloc
 #print axioms Inj.Tie.T_a64_read_bytes
 #print axioms Inj.Tie.T_a64_install_exec
+#print axioms Inj.Tie.T_a64_install_bool_exec
